@@ -2563,7 +2563,7 @@ func c05_runC05(e *Env) {
 		"registered in a random order, working directories at and below mount points, paths below the innermost mount, exactly on a mount point, relative, with .., . and a trailing slash; " +
 		"every mount's Source records its calls, so which mount serves os.read_file/write_file/stat/remove/remove_all/mkdir/mkdir_all/read_dir/rename/symlink in a script (55 %) or the " +
 		"VirtualOS method called by the host, and the path it is handed, is compared with the model's findMount and repeated 16-48 times with a fresh mount map and a fresh VirtualOS; " +
-		"12 % of the tables (<= 4 mounts) spell Mount.Target unlike the key (empty, trailing slash): there the model is asked under every visiting order (finding C05-findmount-target-length); " +
+		"25 % of the tables spell Mount.Target unlike the key (empty, trailing slash, mixed): ordinary cases since the repair of findMount (one model answer, tables of <= 4 mounts asked under every visiting order; every repetition must show it); " +
 		"non-trivial when >= 2 mount points qualify for the path; I: sets of 2-32 hashable values at least two of which are byte slices or strings of 15-200 bytes (lengths around 16/32/33/64/65, " +
 		"70 % sharing a 32-48 byte stem, printable and arbitrary bytes), next to short byte slices, bytes 0-255, ints up to 2^40, floats, bools, nil: HashKey() of every member against HV.key, " +
 		"SortedItems/Iter/Inspect/List against setListing, the law 'listed in ascending order of the values' on the real listing, and 60 % of the sets (<= 12 members) built, iterated, printed, " +
